@@ -496,7 +496,7 @@ type parser struct {
 	undet string
 }
 
-func (p *parser) peek() token   { return p.toks[p.i] }
+func (p *parser) peek() token { return p.toks[p.i] }
 func (p *parser) peek2() token {
 	if p.i+1 < len(p.toks) {
 		return p.toks[p.i+1]
